@@ -212,6 +212,41 @@ fn to_deltas(code_map: &CodeMap, semtoks: Vec<SemTok>) -> Vec<SemanticToken> {
     result
 }
 
+/// verif hook: runs `to_deltas` on a text and byte spans `(low, high, token type index)` relative to the start of the text
+#[cfg(mos_verif)]
+pub(crate) fn verif_to_deltas(
+    text: &str,
+    spans: &[(u64, u64, usize)],
+) -> (Vec<[u32; 5]>, Vec<u32>) {
+    caps(); // initialize the lookup tables
+    let mut code_map = CodeMap::default();
+    let file = code_map.add_file("verif.asm".to_string(), text.to_string());
+    let types = TokenType::iter().collect_vec();
+    let semtoks = spans
+        .iter()
+        .map(|(low, high, ty)| {
+            SemTok::new(file.span.subspan(*low, *high), types[*ty % types.len()])
+        })
+        .collect_vec();
+    let data = to_deltas(&code_map, semtoks)
+        .into_iter()
+        .map(|t| {
+            [
+                t.delta_line,
+                t.delta_start,
+                t.length,
+                t.token_type,
+                t.token_modifiers_bitset,
+            ]
+        })
+        .collect_vec();
+    let type_map = types
+        .iter()
+        .map(|ty| *TOKEN_TYPE_LOOKUP.get().unwrap().get(ty).unwrap())
+        .collect_vec();
+    (data, type_map)
+}
+
 struct SemTok {
     span: Span,
     token_type: TokenType,
